@@ -31,7 +31,7 @@ for pid in ids:
     })
 man = {
     "version": 1,
-    "setup_cmd": "/venv/bin/python -m harness.extract --write && cd lean && lake build NauyacaVerif nvdriver",
+    "setup_cmd": "/venv/bin/python -m harness.setup",
     "hooks": {"guard": "NAUYACA_VERIF", "enable": "no source hooks: all instrumentation is done from outside (substituted transports, event loop, sqlite3 shim, handlers); the checks set NAUYACA_VERIF=1 for uniformity",
               "baseline_off_cmd": "cd /repo && /venv/bin/python -m pytest -q -p no:cacheprovider --timeout=900", "source_commits": [], "add_only": True},
     "engines": [{"name": "lean4-proof+correspondence", "path": "lean/", "serves_properties": [c["property_id"] for c in checks],
